@@ -181,6 +181,28 @@ def big_error(n: int) -> int:
         raise ValueError("x" * n)
     return n
 
+def nan_val(x: float) -> float:
+    big = x * 1e308 * 10.0
+    return big - big
+
+def inf_val(x: float) -> float:
+    if x > 0:
+        return x * 1e308 * 10.0
+    return -(1e308 * 10.0)
+
+def negzero(x: int) -> float:
+    return -0.0 * x
+
+def nan_list(x: float) -> list:
+    n = nan_val(x)
+    return [n, 1.5, n]
+
+def nan_dict(x: float) -> dict:
+    return {"a": nan_val(x), "b": -0.0}
+
+def nan_tuple(x: float) -> tuple:
+    return (nan_val(x), inf_val(x))
+
 def big_value(n: int) -> str:
     if n > 10:
         return "y" * n
@@ -301,7 +323,11 @@ def main() -> None:  # noqa: PLR0915
         progs = [["var_0 = 1", "var_1 = fine(var_0)", "var_2 = explode(3)"],       # SUT __reduce__ runs while pickling
                  ["var_0 = explode(1)"],
                  ["var_0 = fine(5)", "var_1 = big_error(2000000)"],                  # 2 MB exception message
-                 ["var_0 = big_value(1500000)", "var_1 = fine(1)"]]                  # 1.5 MB value for the assertion observer
+                 ["var_0 = big_value(1500000)", "var_1 = fine(1)"],                  # 1.5 MB value for the assertion observer
+                 # float corner values observed by the assertion observer: NaN (!= itself), inf, -0.0, containers
+                 ["var_0 = nan_val(2.0)", "var_1 = fine(1)"],
+                 ["var_0 = inf_val(1.0)", "var_1 = inf_val(-1.0)", "var_2 = negzero(3)"],
+                 ["var_0 = nan_list(2.0)", "var_1 = nan_dict(2.0)", "var_2 = nan_tuple(2.0)"]]
         for p in progs:
             t = tc(p)
             for exr in (inproc, sub):
